@@ -97,6 +97,7 @@ func (f *FlowSpec) Bytes() []byte {
 }
 
 type ContactSpec struct {
+	Untyped  map[string]bool // number fields whose stored value has its text only
 	UUID     string
 	ID       int
 	Name     string
@@ -294,6 +295,11 @@ var fieldPool = []FieldSpec{
 	{Key: "ward", Name: "Ward", Type: "ward"},
 	{Key: "nick", Name: "Nick Name", Type: "text"},
 	{Key: "score", Name: "Score", Type: "number"},
+	// keys that are also names of functions and router tests
+	{Key: "code", Name: "Code", Type: "text"},
+	{Key: "count", Name: "Count", Type: "number"},
+	{Key: "date", Name: "Date", Type: "datetime"},
+	{Key: "title", Name: "Title", Type: "text"},
 }
 
 func (g *G) genAssets() {
@@ -318,7 +324,7 @@ func (g *G) genAssets() {
 		s.Channels = append(s.Channels, c)
 	}
 
-	nf := t.Weighted("nfields", 1, 2, 3, 3, 2, 1)
+	nf := t.Weighted("nfields", 1, 2, 3, 3, 2, 2, 1, 1)
 	for i := 0; i < nf; i++ {
 		f := fieldPool[(i+t.Pick("fieldoff", len(fieldPool)))%len(fieldPool)]
 		dup := false
@@ -363,8 +369,8 @@ func (g *G) genAssets() {
 	for i, n := 0, t.Weighted("nusers", 2, 2, 1); i < n; i++ {
 		s.Users = append(s.Users, []UserSpec{{Email: "bob@nyaruka.com", Name: "Bob"}, {Email: "ann@nyaruka.com", Name: "Ann"}}[i])
 	}
-	for i, n := 0, t.Weighted("nglobals", 2, 2, 1); i < n; i++ {
-		s.Globals = append(s.Globals, []GlobalSpec{{Key: "org_name", Name: "Org Name", Value: "Nyaruka"}, {Key: "limit", Name: "Limit", Value: "10"}}[i])
+	for i, n := 0, t.Weighted("nglobals", 2, 2, 1, 1); i < n; i++ {
+		s.Globals = append(s.Globals, []GlobalSpec{{Key: "org_name", Name: "Org Name", Value: "Nyaruka"}, {Key: "limit", Name: "Limit", Value: "10"}, {Key: "text", Name: "Text", Value: "some text"}}[i])
 	}
 	for i, n := 0, t.Weighted("nclassifiers", 2, 2, 1, 1); i < n; i++ {
 		s.Classifs = append(s.Classifs, ClassifierSpec{UUID: g.uuid(kClassifier), Name: []string{"Booking", "Luis", "Bothub"}[i], Type: []string{"wit", "luis", "bothub"}[i], Intents: []string{"book_flight", "book_hotel"}})
